@@ -61,7 +61,72 @@ ASSUMPTIONS = [
 ]
 
 
+# ---- the lock table of the clients, re-derived from the AST (fail closed)
+def _lock_acquisitions(cls, name, seen=()):
+    """[(lock, 'timed'|'plain'), ...] performed by method `name` of class node `cls`, calls to other methods inlined."""
+    import ast
+    methods = {n.name: n for n in cls.body if isinstance(n, ast.FunctionDef)}
+    if name not in methods or name in seen:
+        return []
+    out = []
+
+    def lock_name(node):
+        # self.__send_lock.get()  /  self.__receive_lock.get()
+        if isinstance(node, ast.Call) and isinstance(node.func, ast.Attribute) and node.func.attr == "get" \
+                and isinstance(node.func.value, ast.Attribute) and isinstance(node.func.value.value, ast.Name) \
+                and node.func.value.value.id == "self" and node.func.value.attr.endswith("_lock"):
+            return node.func.value.attr.strip("_").replace("_lock", "")
+        return None
+
+    for node in ast.walk(methods[name]):
+        if isinstance(node, ast.With):
+            for item in node.items:
+                ce = item.context_expr
+                ln = lock_name(ce)
+                if ln:
+                    out.append((ln, "plain"))
+                elif isinstance(ce, ast.Call) and isinstance(ce.func, ast.Attribute) and ce.func.attr == "lock_with_timeout":
+                    ln = lock_name(ce.args[0]) if ce.args else None
+                    if not ln:
+                        raise runner.TranslateError(f"{cls.name}.{name}: lock_with_timeout on an unrecognised lock")
+                    out.append((ln, "timed"))
+        elif isinstance(node, ast.Call) and isinstance(node.func, ast.Attribute) and isinstance(node.func.value, ast.Name) \
+                and node.func.value.id == "self" and node.func.attr in methods and node.func.attr != name:
+            out.extend(_lock_acquisitions(cls, node.func.attr, seen + (name,)))
+        elif isinstance(node, ast.Attribute) and node.attr.endswith("_lock") and isinstance(node.value, ast.Name) \
+                and node.value.id == "self":
+            pass
+    return out
+
+
+def check_lock_table():
+    """The model (coq/IO/ClientLocks.v) assumes: send_packet = [send lock, timed]; recv_packet = [receive lock, timed];
+    every other public method takes at most the send lock, without timeout."""
+    import ast
+    import os
+    for rel, clsname in (("src/easynetwork/clients/tcp.py", "TCPNetworkClient"), ("src/easynetwork/clients/udp.py", "UDPNetworkClient")):
+        try:
+            tree = ast.parse(open(os.path.join(runner.REPO, rel)).read())
+        except SyntaxError as exc:
+            raise runner.TranslateError(f"{rel} does not parse: {exc}")
+        cls = next((n for n in tree.body if isinstance(n, ast.ClassDef) and n.name == clsname), None)
+        if cls is None:
+            raise runner.TranslateError(f"{clsname} not found")
+        for fn in cls.body:
+            if not isinstance(fn, ast.FunctionDef) or fn.name.startswith("_"):
+                continue
+            acq = _lock_acquisitions(cls, fn.name)
+            want = {"send_packet": [("send", "timed")], "recv_packet": [("receive", "timed")]}.get(fn.name)
+            if want is not None:
+                if acq != want:
+                    raise runner.TranslateError(f"lock table: {clsname}.{fn.name} acquires {acq}, the model assumes {want}")
+            elif any(a != ("send", "plain") for a in acq):
+                raise runner.TranslateError(f"lock table: {clsname}.{fn.name} acquires {acq}, the model assumes only "
+                                            f"the send lock without timeout")
+
+
 def params():
+    check_lock_table()
     flag = c04.drops_empty_views()
     return f"Definition sendmsg_drops_empty_views : bool := {'true' if flag else 'false'}.\n"
 
@@ -255,10 +320,24 @@ def _stream_target(impl, ri, n, bufsize, clock, sel, script):
     return ep, close, None, peer
 
 
-def _one_call(fn, clock, sel, lock):
-    """Run one blocking call; -> [outcome, waits, dt, lockwaits]"""
+OTHER_HELD = (1, 77)      # the lock the call must NOT touch is held elsewhere (it would be granted after 77 ticks)
+
+
+def _locks_after(locks, other, o0):
+    """[send lock free, receive lock free, waits on the other lock during the call]"""
+    if not locks:
+        return [1, 1, []]
+    rlock, slock = locks
+    return [0 if slock.held else 1, 0 if rlock.held else 1, other.waits[o0:]]
+
+
+def _one_call(fn, clock, sel, lock, locks=None, other=None):
+    """Run one blocking call; -> [outcome, waits, dt, lockwaits, locks afterwards]"""
     w0 = len(sel.waits)
     l0 = len(lock.waits) if lock else 0
+    o0 = len(other.waits) if other else 0
+    if other is not None:
+        other.ans = OTHER_HELD
     start = clock.now
     try:
         with iosim.alarm(10.0):
@@ -272,7 +351,10 @@ def _one_call(fn, clock, sel, lock):
             raise
         outcome = [iosim.exc_code(exc)]
     dt = iosim.ticks(clock.now - start)
-    return [outcome, sel.waits[w0:], dt if isinstance(dt, int) else -7, lock.waits[l0:] if lock else []]
+    if other is not None:
+        other.ans = None
+    return [outcome, sel.waits[w0:], dt if isinstance(dt, int) else -7, lock.waits[l0:] if lock else [],
+            _locks_after(locks, other, o0)]
 
 
 def _recv_script(script):
@@ -297,7 +379,8 @@ def run_calls(inp):
                 if locks:
                     lock = locks[0]
                     lock.ans = _lock_of(lk)
-                out.append(_one_call(lambda: target.recv_packet(timeout=_py_timeout(T)), clock, sel, lock))
+                out.append(_one_call(lambda: target.recv_packet(timeout=_py_timeout(T)), clock, sel, lock, locks,
+                                     locks[1] if locks else None))
     finally:
         close()
     return out
@@ -317,7 +400,7 @@ def run_iter(inp):
             it = target.iter_received_packets(timeout=_py_timeout(T))
             for lk in lockans:
                 locks[0].ans = _lock_of(lk)
-                out.append(_one_call(lambda: next(it), clock, sel, locks[0]))
+                out.append(_one_call(lambda: next(it), clock, sel, locks[0], locks, locks[1]))
     finally:
         close()
     return out
@@ -337,9 +420,11 @@ def run_client_send(inp):
     client = TCPNetworkClient(sock, c04._chunk_protocol(), max_recv_size=64, retry_interval=iosim.secs(ri))
     transport = client._TCPNetworkClient__endpoint._StreamEndpoint__transport
     transport._selector_factory = sel.factory
-    slock = ScriptedLock(clock)
+    slock, rlock = ScriptedLock(clock), ScriptedLock(clock)
     client._TCPNetworkClient__send_lock = _LockBox(slock)
+    client._TCPNetworkClient__receive_lock = _LockBox(rlock)
     slock.ans = _lock_of(lk)
+    rlock.ans = OTHER_HELD
     saved = constants.SC_IOV_MAX
     constants.SC_IOV_MAX = iov
     start = clock.now
@@ -361,12 +446,14 @@ def run_client_send(inp):
             wire += iosim.drain(peer)
         if wire != want:
             code = 40
+        after = [0 if slock.held else 1, 0 if rlock.held else 1, list(rlock.waits)]
     finally:
         constants.SC_IOV_MAX = saved
         slock.ans = None
+        rlock.ans = None
         client.close()
         peer.close()
-    return [code, wire, sel.waits, dt, slock.waits]
+    return [code, wire, sel.waits, dt, slock.waits, after]
 
 
 # ---- op 4 / 5 (UDP client)
@@ -417,7 +504,7 @@ def run_udp_recv(inp):
     rlock.ans = _lock_of(lk)
     try:
         with clock.installed():
-            return _one_call(lambda: client.recv_packet(timeout=_py_timeout(T)), clock, sel, rlock)
+            return _one_call(lambda: client.recv_packet(timeout=_py_timeout(T)), clock, sel, rlock, (rlock, slock), slock)
     finally:
         close()
 
@@ -430,6 +517,7 @@ def run_udp_send(inp):
     script = iosim.SockScript(clock, send=[(a[0], 1 << 20, a[2]) if a[0] == 0 else tuple(a) for a in sscript], bound=len(sscript) + 2)
     client, close, rlock, slock, peer = _udp_client(ri, clock, sel, script)
     slock.ans = _lock_of(lk)
+    rlock.ans = OTHER_HELD
     start = clock.now
     code = 0
     try:
@@ -442,9 +530,10 @@ def run_udp_send(inp):
                 code = iosim.exc_code(exc)
         dt = iosim.ticks(clock.now - start)
         wire = bytes(script.accepted)
+        after = [0 if slock.held else 1, 0 if rlock.held else 1, list(rlock.waits)]
     finally:
         close()
-    return [code, wire, sel.waits, dt, slock.waits]
+    return [code, wire, sel.waits, dt, slock.waits, after]
 
 
 # ---- op 6: _retry in a time-indexed environment
@@ -669,6 +758,9 @@ def run_real_recv(inp):
 
 def run_impl(inp):
     op = inp[0]
+    if op == 9:
+        import c11_threads
+        return c11_threads.run(inp)
     if op == 8:
         return run_real_recv(inp)
     if op == 6:
@@ -680,29 +772,16 @@ def run_impl(inp):
 
 # ---------------------------------------------------------------------------------------------------------------
 # the property, stated on the implementation
-def _budget_failure(T, waits, lockwaits, selans, lockans, outcome_code, what):
-    """waits requested never exceed what is left of T; a zero timeout never waits; TimeoutError only if exhausted."""
-    if T is None:
-        if outcome_code == 1:
-            return f"{what}: TimeoutError with an infinite timeout"
-        return None
-    if T < 0:
-        return None
-    reqs = [w[1] for w in waits] + list(lockwaits)
-    if T == 0 and reqs:
-        return f"{what}: a zero timeout waited ({reqs})"
-    spent = 0
-    # replay in order: lock wait first, then selector waits, each bounded by the remaining budget
-    seq = [(r, lockans[1] if lockans not in (None, "none") else 0) for r in lockwaits]
-    seq += [(w[1], (selans[i][1] if i < len(selans) else 0)) for i, w in enumerate(waits)]
-    for req, el in seq:
-        if req == [] or req[0] < 0:
-            return f"{what}: unbounded or malformed wait {req} with finite timeout {T}"
-        if spent >= T:
-            return f"{what}: waits again although {spent} >= T={T} ticks were already spent waiting"
-        if req[0] > T - spent:
-            return f"{what}: requested a wait of {req[0]} ticks with only {T - spent} left of T={T}"
-        spent += el
+_budget_failure = iosim.budget_failure
+
+
+def _lock_failure(after, what):
+    send_free, recv_free, other_waits = after
+    if other_waits:
+        return f"{what}: lock discipline: the call waited on the other lock ({other_waits})"
+    if not (send_free and recv_free):
+        return (f"{what}: lock discipline: after the call send lock free={send_free}, receive lock free={recv_free} "
+                f"(a lock acquired by lock_with_timeout was not released)")
     return None
 
 
@@ -737,7 +816,10 @@ def oracle(inp):
         used_sel = 0
         T_left = iosim.sx_tmo(inp[4]) if op == 2 else None
         for i, call in enumerate(out):
-            outcome, waits, dt, lockwaits = call
+            outcome, waits, dt, lockwaits, after = call
+            f = _lock_failure(after, f"call {i}")
+            if f:
+                return f
             if outcome[0] in (8, 9):
                 return "receive does not terminate"
             T = Ts[i] if Ts is not None else T_left
@@ -755,12 +837,36 @@ def oracle(inp):
         else:
             _, ri, T, lk, want, sscript, sels = inp[:7]
         T = iosim.sx_tmo(T)
-        code, wire, waits, dt, lockwaits = out
+        code, wire, waits, dt, lockwaits, after = out
+        f = _lock_failure(after, "send_packet")
+        if f:
+            return f
         if code in (8, 9):
             return "send_packet does not terminate"
         if code == 0 and wire != want:
             return "send_packet returned without writing the packet"
         return _budget_failure(T, waits, lockwaits, sels, _lock_of(lk), code, "send_packet")
+    if op == 9:
+        import c11_threads
+        enabled, final, send_free, recv_free = out
+        LOCK = {0: "s", 1: "r", 2: "s"}
+        for k, m, T, st, parked in c11_threads.run.last_trace:
+            busy = any(LOCK[pm] == LOCK[m] for pm in parked)
+            if st == [2] and not busy:
+                return (f"lock discipline: call {k} ({['send_packet', 'recv_packet', 'is_closed'][m]}) is blocked although "
+                        f"its own lock is free (it waits on the other lock)")
+            if st == [2] and T == 0 and m != 2:
+                return f"lock discipline: call {k} with a zero timeout is blocked on a lock"
+        if all(st[0] == 0 for _, st in final) and not (send_free and recv_free):
+            return (f"lock discipline: every call has ended but send lock free={send_free}, receive lock free={recv_free} "
+                    f"(a lock acquired by lock_with_timeout was not released)")
+        for k, st in final:
+            if st[0] == 0 and st[1] == 1:
+                lab = [lb for lb in inp[1] if lb[0] == 0 and lb[1] == k][0]
+                gave_up = any(lb[0] == 2 and lb[1] == k for lb in inp[1])
+                if not gave_up and iosim.sx_tmo(lab[3]) != 0:
+                    return f"lock discipline: call {k} raised TimeoutError although the history lets it acquire its lock"
+        return None
     if op == 8:
         import realio
         _, n, bufsize, ncalls, T, spec, mode, extra = inp[:8]
@@ -805,7 +911,10 @@ def oracle(inp):
         return None
     if op == 4:
         _, ri, T, lk, rscript, sels = inp[:6]
-        outcome, waits, dt, lockwaits = out
+        outcome, waits, dt, lockwaits, after = out
+        f = _lock_failure(after, "udp recv_packet")
+        if f:
+            return f
         if outcome[0] in (8, 9):
             return "recv_packet does not terminate"
         return _budget_failure(iosim.sx_tmo(T), waits, lockwaits, sels, _lock_of(lk), outcome[0], "udp recv_packet")
@@ -963,6 +1072,36 @@ def cases(tier, rng, escalate):
                     continue
                 yield dict(input=[7, iosim.tmo_sx(T), list(arr)], tags=_tags(7, T, ["async-iter", f"nexts{k}"]),
                            nontrivial=any(d > 0 for d in arr))
+    # ---- op 9: lock discipline under real threads
+    import c11_threads
+    fixed = [
+        # a parked sender must not delay a receive (timeout 0 / finite / None), nor is_closed a receive
+        [[0, 0, 0, []], [0, 1, 1, [0]], [3, 1, 1], [3, 0, 1]],
+        [[0, 0, 0, []], [0, 1, 1, [5]], [3, 1, 1], [3, 0, 1]],
+        [[0, 0, 0, []], [0, 1, 1, []], [3, 1, 0], [3, 0, 1]],
+        [[0, 0, 1, []], [0, 1, 0, [0]], [3, 1, 1], [3, 0, 1]],
+        # contended acquisition that succeeds, then a third call must find the lock free
+        [[0, 0, 0, []], [0, 1, 0, [5]], [3, 0, 1], [1, 1], [3, 1, 1], [0, 2, 0, [5]], [3, 2, 1]],
+        [[0, 0, 1, []], [0, 1, 1, [5]], [3, 0, 1], [1, 1], [3, 1, 1], [0, 2, 1, [0]], [3, 2, 1]],
+        [[0, 0, 0, []], [0, 1, 0, []], [3, 0, 0], [1, 1], [3, 1, 1], [0, 2, 2, []], [0, 3, 0, [0]], [3, 3, 1]],
+        # contended acquisition that gives up / zero timeout on a held lock
+        [[0, 0, 0, []], [0, 1, 0, [5]], [2, 1], [3, 0, 1], [0, 2, 0, [0]], [3, 2, 1]],
+        [[0, 0, 0, []], [0, 1, 0, [0]], [3, 0, 1]],
+        [[0, 0, 0, []], [0, 1, 2, []], [3, 0, 1], [1, 1]],
+    ]
+    for kind in (0, 1):
+        for h in fixed:
+            yield dict(input=[9, h, kind], tags=_tags(9, None, ["threads", "tcp" if kind == 0 else "udp", "fixed"]), nontrivial=True)
+    n9 = 120 if thorough else 24
+    seen = set()
+    for _ in range(n9):
+        h = c11_threads.gen_history(rng, 4)
+        key = repr(h)
+        if not h or key in seen:
+            continue
+        seen.add(key)
+        yield dict(input=[9, h, rng.choice([0, 1])], tags=_tags(9, None, ["threads", "random",
+                   "contended" if any(lb[0] in (1, 2) for lb in h) else "uncontended"]), nontrivial=len(h) > 2)
     # ---- op 8: real loopback sockets / real TLS, outcome + packet digests only
     n8 = 60 if thorough else 24
     for i in range(n8):
